@@ -166,8 +166,13 @@ def run_pipe1(case):
     p = Probe(case["cfg"], symbols=case.get("symbols"), base=case["base"], monitors=[schedule_monitor()])
     p.run()
     res.evals += 1
+    res.states += p.iters
+    res.trans += p.iters
+    res.outcome(("pipe1", tuple(sorted((k, repr(v)) for k, v in case["cfg"].items())), case["base"]), nontrivial=True)
+    if p.exc is not None:
+        res.bump("aborted_runs")
     for key, msg, det in p.viol[:3]:
-        res.violate(key, msg, case)
+        res.violate(key, msg + f" [cfg={case['cfg']}]", case)
     return res
 
 
@@ -330,6 +335,8 @@ def plan(ctx):
     dcfg = dict(n_particles=8, d=1, ess_ratio=1.0, n_total=10 ** 6, eval="scalar", clustering=False)
     duo = [{"kind": "duo", "cfg": dict(dcfg, vv=vv), "base": ctx.seed, "depth": 5 if th else 4, "shard": [sh, 8]} for vv in (None, 0.5) for sh in range(8)]
     ctx.explore("two-samplers-interleaved", duo)
+    from mc.pipeline import LARGE
+    ctx.explore("large-scopes", [{"kind": "pipe1", "cfg": c, "base": ctx.seed + b} for c in LARGE for b in ((0, 4) if th else (0,))])
     ctx.explore("session-patterns", [{"kind": "session", "cfg": dict(dcfg, vv=vv, ess_ratio=er), "base": ctx.seed, "depth": 9, "patterns": [sh, 4]} for vv, er in ((None, 1.0), (0.5, 2.0)) for sh in range(4)])
     from mc import session as _s2
     ctx.explore("resume-with-other-options", [{"kind": "cross", "cfg": dict(n_particles=16, d=2, n_total=48, eval="scalar", clustering=False), "pair": list(pr), "base": ctx.seed + b} for pr in _s2.CROSS for b in ((0, 5) if th else (0,))])
